@@ -1,3 +1,5 @@
+/* repro_c05.c - stand-alone reproduction of the C05 findings with the plain RELIC API (no harness).
+ * gcc -I<build>/include -I/repo/include -I/repo/include/low repro_c05.c <build>/lib/librelic_s.a -lm -lpthread */
 #include <relic.h>
 #include <stdio.h>
 #include <string.h>
@@ -53,6 +55,21 @@ int main(void) {
 		sl = sizeof(sig); int rs = cp_rsa_sig(sig, &sl, msg, sizeof(msg), 0, prv);
 		printf("8 rsa-pss honest signature, %zu-bit modulus: sig = %d, ver = %d (expected 1)\n", bn_bits(pub->crt->n), rs, cp_rsa_ver(sig, sl, msg, sizeof(msg), 0, pub));
 		break;
+	}
+#endif
+#if defined(WITH_PC)
+	if (pc_param_set_any() == RLC_OK) {
+		g1_t s1; g2_t s2, q2; g1_t q1; gt_t z;
+		g1_null(s1); g2_null(s2); g2_null(q2); g1_null(q1); gt_null(z);
+		g1_new(s1); g2_new(s2); g2_new(q2); g1_new(q1); gt_new(z);
+		pc_get_ord(n); gt_get_gen(z);
+		md_map(h, msg, sizeof(msg)); bn_read_bin(e, h, RLC_MD_LEN); bn_mod(e, e, n); bn_mod_inv(e, e, n);
+		/* 11. Boneh-Boyen: identity public key, sigma = [1/H(m)]G1 */
+		g2_set_infty(q2); g1_mul_gen(s1, e);
+		printf("11 bbs identity key, forged sigma: ver = %d (expected 0)\n", cp_bbs_ver(s1, msg, sizeof(msg), 0, q2, z));
+		/* 12. ZSS: identity public key, sigma = [1/H(m)]G2 */
+		g1_set_infty(q1); g2_mul_gen(s2, e);
+		printf("12 zss identity key, forged sigma: ver = %d (expected 0)\n", cp_zss_ver(s2, msg, sizeof(msg), 0, q1, z));
 	}
 #endif
 #if CP_RSAPD == BASIC
